@@ -1,6 +1,7 @@
 import Yaql.Drv.Util
 import Yaql.Model.Resolve
 import Yaql.Model.ResolveCtx
+import Yaql.Model.Interface
 import Yaql.Model.Signature
 /-! Driver for the overload-resolution model (C05, C06, C11, C12): decodes overload
 families, class graphs and calls, runs `Yaql.Resolve.resolve` (or `resolveOld`-free
@@ -125,25 +126,37 @@ def encMapping (m : Mapping) : Json :=
 /-- one history on live contexts: `{"defs":[fd…], "steps":[{"k":"root"} | {"k":"child","i":n} |
     {"k":"reg","i":n,"name":s,"fid":n,"x":b} | {"k":"del","i":n,"name":s,"fid":n} |
     {"k":"multi","ms":[n…]} | {"k":"linked","p":n|null,"t":n} |
-    {"k":"call","i":n,"name":s,"call":{…}}]}` -> the outcome of every call step, made in the state
-    of its moment (`Yaql.ResolveCtx.run` / `resolveIn`) -/
+    {"k":"call","i":n,"name":s,"call":{…}} |
+    {"k":"yi","i":n,"recv"?:v} | {"k":"inject","i":n,"recv"?:v} | {"k":"on","y":k,"recv":v} |
+    {"k":"ycall","y":k,"name":s,"call":{args, kw}}]}` -> the outcome of every call / ycall step, made in the state
+    of its moment (`Yaql.ResolveCtx.run` / `resolveIn`; `Yaql.Interface.istep` for the interface steps) -/
 def runHist (L : Lattice) (h : Json) : Json :=
   let fds := (jarr h "defs").map decFDef
   let defs : Yaql.ResolveCtx.Defs := fun i => (fds.find? (·.id == i)).getD default
-  let go := fun (acc : Yaql.ResolveCtx.St × List Json) (stp : Json) =>
-    let (st, outs) := acc
+  let recvOf := fun (j : Json) => if jhas j "recv" then some (decVal (jget j "recv")) else none
+  let go := fun (acc : Yaql.Interface.ISt × List Json) (stp : Json) =>
+    let (s, outs) := acc
+    let ctxOp := fun (op : Yaql.ResolveCtx.Op) => ((Yaql.Interface.istep L defs s (.ctx op)).1, outs)
     match jstr stp "k" with
-    | "root" => (Yaql.ResolveCtx.step st .root, outs)
-    | "child" => (Yaql.ResolveCtx.step st (.child (jnat stp "i")), outs)
-    | "reg" => (Yaql.ResolveCtx.step st
-                  (.register (jnat stp "i") (nm (jstr stp "name")) (jnat stp "fid") (jbool stp "x")), outs)
-    | "del" => (Yaql.ResolveCtx.step st (.delete (jnat stp "i") (nm (jstr stp "name")) (jnat stp "fid")), outs)
-    | "multi" => (Yaql.ResolveCtx.step st (.multi ((jarr stp "ms").map asNat)), outs)
-    | "linked" => (Yaql.ResolveCtx.step st (.linked (jnatOpt stp "p") (jnat stp "t")), outs)
+    | "root" => ctxOp .root
+    | "child" => ctxOp (.child (jnat stp "i"))
+    | "reg" => ctxOp (.register (jnat stp "i") (nm (jstr stp "name")) (jnat stp "fid") (jbool stp "x"))
+    | "del" => ctxOp (.delete (jnat stp "i") (nm (jstr stp "name")) (jnat stp "fid"))
+    | "multi" => ctxOp (.multi ((jarr stp "ms").map asNat))
+    | "linked" => ctxOp (.linked (jnatOpt stp "p") (jnat stp "t"))
     | "call" =>
-        (st, encOutcome (Yaql.ResolveCtx.resolveIn L defs st (jnat stp "i") (nm (jstr stp "name"))
-                           (decCall (jget stp "call"))) :: outs)
-    | _ => (st, outs)
+        (s, encOutcome (Yaql.ResolveCtx.resolveIn L defs s.st (jnat stp "i") (nm (jstr stp "name"))
+                          (decCall (jget stp "call"))) :: outs)
+    -- the host entry point (Yaql.Interface): interfaces are handles in order of creation
+    | "yi" => ((Yaql.Interface.istep L defs s (.mk (jnat stp "i") (recvOf stp))).1, outs)
+    | "inject" => ((Yaql.Interface.istep L defs s (.inject (jnat stp "i") (recvOf stp))).1, outs)
+    | "on" => ((Yaql.Interface.istep L defs s (.on (jnat stp "y") (decVal (jget stp "recv")))).1, outs)
+    | "ycall" =>
+        let c := decCall (jget stp "call")
+        match (Yaql.Interface.istep L defs s (.call (jnat stp "y") (nm (jstr stp "name")) c.args c.kwargs)).2 with
+        | some o => (s, encOutcome o :: outs)
+        | none => (s, jerr "no such interface" :: outs)
+    | _ => (s, outs)
   jl ((jarr h "steps").foldl go ({}, [])).2.reverse
 
 /-! ### `specs.get_function_definition`: Python signature + decorators -> parameter table -/
